@@ -635,96 +635,115 @@ func runC30(c *Ctx) {
 	// untracked-overwrite-refused: both non-forced modes reach, before resetRefusals can succeed, a successful call of a
 	// function that consults Status and refuses on an Untracked entry (an untracked file at a path the switch writes)
 	const r5 = "untracked-overwrite-refused"
-	if rr := c.MustFunc(r5, "git.(*Worktree).resetRefusals"); rr != nil {
-		untrackedObj := p.lookupObj("git", "Untracked")
-		refusers := map[*types.Func]bool{}
-		for _, fi := range p.FuncsIn("git") {
-			if fi.Decl.Body == nil || p.isTestFile(fi.Decl.Pos()) || untrackedObj == nil {
-				continue
-			}
-			usesStatus := nodeHasCall(fi.Decl.Body, true, func(call *ast.CallExpr) bool {
-				fn := Callee(info, call)
-				return fn != nil && fn.Name() == "Status"
-			}) != nil
-			// a condition on the Untracked status code, and a return of a refusal sentinel, inside one loop over the status
-			refuses := false
-			ast.Inspect(fi.Decl.Body, func(x ast.Node) bool {
-				loop, ok := x.(*ast.RangeStmt)
-				if !ok {
-					return true
+	type refusalKind struct {
+		rule, code, what string
+		needStaging      bool
+	}
+	for _, rk := range []refusalKind{
+		{r5, "Untracked", "untracked files at the paths the switch writes", false},
+		{"staged-changes-refused", "Unmodified", "staged changes (the index is reset to the target, so what was staged is discarded)", true},
+	} {
+		r5 := rk.rule
+		if rr := c.MustFunc(r5, "git.(*Worktree).resetRefusals"); rr != nil {
+			untrackedObj := p.lookupObj("git", rk.code)
+			refusers := map[*types.Func]bool{}
+			for _, fi := range p.FuncsIn("git") {
+				if fi.Decl.Body == nil || p.isTestFile(fi.Decl.Pos()) || untrackedObj == nil {
+					continue
 				}
-				condOnUntracked, returnsSentinel := false, false
-				ast.Inspect(loop.Body, func(y ast.Node) bool {
-					switch v := y.(type) {
-					case *ast.IfStmt:
-						if usesObj(info, v.Cond, untrackedObj) {
-							condOnUntracked = true
-						}
-					case *ast.ReturnStmt:
-						for _, n := range refusalSentinels {
-							if o := p.lookupObj("git", n); o != nil && usesObj(info, v, o) {
-								returnsSentinel = true
-							}
-						}
-					}
-					return true
-				})
-				if condOnUntracked && returnsSentinel {
-					refuses = true
-				}
-				return true
-			})
-			if usesStatus && refuses {
-				refusers[fi.Obj] = true
-			}
-		}
-		f := p.FlowOf(rr)
-		c.Analysed(rr)
-		passRefuser := ErrGuard(func(_ *Flow, call *ast.CallExpr) bool { return refusers[Callee(info, call)] })
-		for _, mode := range []string{"MergeReset", "KeepReset"} {
-			modeObj := p.lookupObj("git", mode)
-			if modeObj == nil {
-				c.Unresolved(r5, rr.Name()+":"+mode, rr.Decl.Pos(), "mode constant not found")
-				continue
-			}
-			h := f.Search(SearchOpts{Starts: []Loc{f.Entry()},
-				Sink: func(n ast.Node) bool {
-					r, ok := n.(*ast.ReturnStmt)
-					return ok && !returnsNonNilError(info, rr.Decl.Body, r)
-				},
-				BlockEdge: func(b *cfg.Block, i int) bool {
-					if passRefuser(f, b, i) {
+				usesStatus := nodeHasCall(fi.Decl.Body, true, func(call *ast.CallExpr) bool {
+					fn := Callee(info, call)
+					return fn != nil && fn.Name() == "Status"
+				}) != nil
+				// a condition on the Untracked status code, and a return of a refusal sentinel, inside one loop over the status
+				refuses := false
+				ast.Inspect(fi.Decl.Body, func(x ast.Node) bool {
+					loop, ok := x.(*ast.RangeStmt)
+					if !ok {
 						return true
 					}
-					// edges infeasible under opts.Mode == mode
-					for _, fact := range f.EdgeFacts(b, i) {
-						be, ok := unparen(fact.Atom).(*ast.BinaryExpr)
-						if !ok || (be.Op != token.EQL && be.Op != token.NEQ) {
-							continue
-						}
-						var other types.Object
-						for _, side := range []ast.Expr{be.X, be.Y} {
-							if o := objOfSel(info, side); o != nil {
-								if k, isConst := o.(*types.Const); isConst && k.Type() == modeObj.Type() {
-									other = o
+					condOnUntracked, returnsSentinel := false, false
+					ast.Inspect(loop.Body, func(y ast.Node) bool {
+						switch v := y.(type) {
+						case *ast.IfStmt:
+							if usesObj(info, v.Cond, untrackedObj) {
+								staging := false
+								ast.Inspect(v.Cond, func(z ast.Node) bool {
+									if sel, ok := z.(*ast.SelectorExpr); ok && sel.Sel.Name == "Staging" {
+										staging = true
+									}
+									return true
+								})
+								if !rk.needStaging || staging {
+									condOnUntracked = true
+								}
+							}
+						case *ast.ReturnStmt:
+							for _, n := range refusalSentinels {
+								if o := p.lookupObj("git", n); o != nil && usesObj(info, v, o) {
+									returnsSentinel = true
 								}
 							}
 						}
-						if other == nil {
-							continue
-						}
-						holds := (other == modeObj) == (be.Op == token.EQL) // truth of the atom under Mode == mode
-						if fact.Truth != holds {
+						return true
+					})
+					if condOnUntracked && returnsSentinel {
+						refuses = true
+					}
+					return true
+				})
+				if usesStatus && refuses {
+					refusers[fi.Obj] = true
+				}
+			}
+			f := p.FlowOf(rr)
+			c.Analysed(rr)
+			passRefuser := ErrGuard(func(_ *Flow, call *ast.CallExpr) bool { return refusers[Callee(info, call)] })
+			for _, mode := range []string{"MergeReset", "KeepReset"} {
+				modeObj := p.lookupObj("git", mode)
+				if modeObj == nil {
+					c.Unresolved(r5, rr.Name()+":"+mode, rr.Decl.Pos(), "mode constant not found")
+					continue
+				}
+				h := f.Search(SearchOpts{Starts: []Loc{f.Entry()},
+					Sink: func(n ast.Node) bool {
+						r, ok := n.(*ast.ReturnStmt)
+						return ok && !returnsNonNilError(info, rr.Decl.Body, r)
+					},
+					BlockEdge: func(b *cfg.Block, i int) bool {
+						if passRefuser(f, b, i) {
 							return true
 						}
-					}
-					return false
-				}})
-			c.Check(h == nil && len(refusers) > 0, r5, rr.Name()+":"+mode, rr.Decl.Pos(), orStr(ifStr(h != nil, "under Mode == "+mode+" resetRefusals can succeed without a check that refuses untracked files at the paths the switch writes: a non-forced checkout / reset silently overwrites them"+hitLines(f, h)),
-				"under Mode == "+mode+" success is reached only after a function that refuses untracked files at written paths succeeded"))
+						// edges infeasible under opts.Mode == mode
+						for _, fact := range f.EdgeFacts(b, i) {
+							be, ok := unparen(fact.Atom).(*ast.BinaryExpr)
+							if !ok || (be.Op != token.EQL && be.Op != token.NEQ) {
+								continue
+							}
+							var other types.Object
+							for _, side := range []ast.Expr{be.X, be.Y} {
+								if o := objOfSel(info, side); o != nil {
+									if k, isConst := o.(*types.Const); isConst && k.Type() == modeObj.Type() {
+										other = o
+									}
+								}
+							}
+							if other == nil {
+								continue
+							}
+							holds := (other == modeObj) == (be.Op == token.EQL) // truth of the atom under Mode == mode
+							if fact.Truth != holds {
+								return true
+							}
+						}
+						return false
+					}})
+				c.Check(h == nil && len(refusers) > 0, r5, rr.Name()+":"+mode, rr.Decl.Pos(), orStr(ifStr(h != nil, "under Mode == "+mode+" resetRefusals can succeed without a check that refuses "+rk.what+": a non-forced checkout / reset silently loses them"+hitLines(f, h)),
+					"under Mode == "+mode+" success is reached only after a function that refuses "+rk.what+" succeeded"))
+			}
 		}
+		c.Floor(r5, 2)
 	}
-	c.Floor(r5, 2)
 }
 
 // indexRestoreDefer finds, in fi, a `defer func() { if <named error result> != nil { …SetIndex(saved) } }()` whose saved
